@@ -144,7 +144,7 @@ func (l *WindowedLimit) OnSample(startTime int64, rtt int64, inFlight int, didDr
 		current := l.sample
 		l.sample = measurements.NewDefaultImmutableSampleWindow()
 		l.nextUpdateTime = endTime + minInt64(maxInt64(current.CandidateRTTNanoseconds()*2, l.minWindowTime), l.maxWindowTime)
-		l.delegate.OnSample(startTime, current.AverageRTTNanoseconds(), current.MaxInFlight(), didDrop)
+		l.delegate.OnSample(startTime, current.AverageRTTNanoseconds(), current.MaxInFlight(), current.DidDrop())
 	}
 }
 
